@@ -73,6 +73,37 @@ def gen_seq(rng):
     return toks
 
 
+def spread(rng, toks):
+    """the same script as an unquoted shell command line would deliver it: every bracketed sub-script spread over several
+    arguments (split at its blanks), so that a group may open and close several brackets in one argument"""
+    out = []
+    for t in toks:
+        if t.startswith('[') and ' ' in t and '#' not in t and '\n' not in t and '\t' not in t and '  ' not in t and rng.random() < 0.8:
+            out += t.split(' ')
+        else:
+            out.append(t)
+    return out
+
+
+def join_args(toks):
+    """Value::parse_args' documented rule: a bracketed sub-script may be spread over several arguments - they are collected,
+    joined by single blanks, until the brackets balance"""
+    joined, acc = [], None
+    for t in toks:
+        if acc is not None:
+            acc += ' ' + t
+            if acc.count('[') - acc.count(']') <= 0:
+                joined.append(acc)
+                acc = None
+        elif t.startswith('[') and t.count('[') - t.count(']') > 0:
+            acc = t
+        else:
+            joined.append(t)
+    if acc is not None:
+        joined.append(acc)
+    return joined
+
+
 def judge(toks, got_hex, exc, part, src):
     part.evaluations += 1
     wit = dict(tokens=[t[:120] for t in toks], via=src)
@@ -183,7 +214,12 @@ def harness_worker(job):
             seqs += [['[', 'OP_1', 'OP_2', ']'], ['[OP_1', 'OP_2]'], ['[OP_1', '0x1234', 'OP_ADD]', 'OP_DUP'], ['1234'], ['515293'], ['0x515293'], ['0011'], ['0x'], ['[0x]'], ['[ ]'.replace(' ', '')] if False else ['[OP_0]']]
         else:
             for i in range(n):
-                seqs.append(gen_seq(rng))
+                sq = gen_seq(rng)
+                seqs.append(sq)
+                sp = spread(rng, sq)
+                if sp != sq:
+                    seqs.append(sp)
+            seqs += [['[[OP_1', 'OP_2]', 'OP_3]'], ['[[[OP_1', 'OP_2]', 'OP_3]', 'OP_4]', 'OP_5'], ['[OP_1', '[OP_2', 'OP_3]]'], ['[[OP_1]', 'OP_2]'], ['[OP_1', '[OP_2]', 'OP_3]']]
         cmds = ['N c']
         for toks in seqs:
             cmds.append('VA ' + ' '.join(t.encode().hex() or '-' for t in toks))
@@ -195,18 +231,7 @@ def harness_worker(job):
             part.inconc('event-count-mismatch')
         for toks, e in zip(seqs, va):
             # multi-argv bracket groups are re-joined by parse_args with single spaces
-            joined = []
-            acc = None
-            for t in toks:
-                if acc is not None:
-                    acc += ' ' + t
-                    if t.endswith(']'):
-                        joined.append(acc)
-                        acc = None
-                elif t.startswith('[') and not t.endswith(']'):
-                    acc = t
-                else:
-                    joined.append(t)
+            joined = join_args(toks)
             exc = bytes.fromhex(e[2][1:]).decode('latin1') if e[2] != '-' else ''
             judge(joined, '' if e[1] == '-' else e[1], exc, part, 'harness')
     finally:
@@ -225,6 +250,8 @@ def binary_worker(job):
             toks = gen_seq(rng)
             if sum(len(t) for t in toks) > 60000 or any('\x00' in t for t in toks):
                 continue
+            if i % 3 == 0:
+                toks = spread(rng, toks)
             r = proc.run([btcc] + toks, wd, mode='pipe', timeout=30)
             if r.abnormal:
                 part.evaluations += 1
@@ -235,7 +262,7 @@ def binary_worker(job):
                 part.evaluations += 1
                 part.violation('btcc-exit-status-%s' % r.rc, dict(tokens=[t[:100] for t in toks], run=r.brief()))
                 continue
-            judge(toks, out, '', part, 'btcc')
+            judge(join_args(toks), out, '', part, 'btcc')
             part.count('binary_runs', 'n')
     finally:
         cleanup_scratch(wd)
